@@ -70,11 +70,48 @@ func newLineUniverse(r *hlib.Rand) *lineUniverse {
 		}
 		u.TagLists = append(u.TagLists, ht)
 	}
-	ni := r.Range(1, 2)
+	// tag lists with a host: tag (the source under ignore-host, an ordinary tag otherwise), next to
+	// the lists without one; several senders
+	nh := r.Range(1, 2)
+	for i := 0; i < nh; i++ {
+		ht := "host:" + hlib.Pick(r, []string{"web1", "web2", "db", ""})
+		switch r.Intn(4) {
+		case 0:
+			ht = hlib.Pick(r, mu.Tags) + "," + ht
+		case 1:
+			ht = ht + "," + hlib.Pick(r, mu.Tags)
+		case 2:
+			ht = ht + ",host:other"
+		}
+		u.TagLists = append(u.TagLists, ht)
+	}
+	ni := r.Range(2, 3)
 	for i := 0; i < ni; i++ {
 		u.IPs = append(u.IPs, hlib.Pick(r, sources))
 	}
 	return u
+}
+
+// stampSource does to an accepted metric what DatagramParser.handleDatagram does (monitors only;
+// the verdict uses Model/Datagram.v): the sender's address, or with ignore-host the value of the
+// first host: tag, which is removed (no such tag: no source).
+func stampSource(m *gostatsd.Metric, ip string, ignoreHost bool) {
+	if !ignoreHost {
+		m.Source = gostatsd.Source(ip)
+		return
+	}
+	m.Source = ""
+	for idx, tag := range m.Tags {
+		if strings.HasPrefix(tag, "host:") {
+			m.Source = gostatsd.Source(tag[5:])
+			if len(m.Tags) > 1 {
+				m.Tags = append(m.Tags[:idx], m.Tags[idx+1:]...)
+			} else {
+				m.Tags = nil
+			}
+			return
+		}
+	}
 }
 
 var histogramTags = []string{"gsd_histogram:10_20_50", "gsd_histogram:-5_0_2.5_1e3", "gsd_histogram:1", "gsd_histogram:10_abc_50_", "gsd_histogram:", "gsd_histogram:_x_", "gsd_histogram:100_10_100"}
@@ -217,6 +254,10 @@ func genSys(r *hlib.Rand, tier string) input {
 		in.CopyMicros = r.Range(40, 300)
 		in.MaxFlushes = r.Range(4, 10)
 	}
+	// the parser configuration an operator can choose
+	in.IgnoreHost = r.Bool()
+	in.Namespace = hlib.Pick(r, []string{"", "", "ns", "a.b"})
+	in.EstTags = hlib.Pick(r, []int{0, 4})
 	in.Sched = r.U64()
 	u := newLineUniverse(r)
 	nlines := r.Range(40, 220)
@@ -453,12 +494,12 @@ func sentAccount(in input) (sent map[string]*tot, dispatches int, lines []string
 		for _, d := range b {
 			for _, line := range linesOf(d.Msg) {
 				lines = append(lines, line)
-				m, _, err := ll.LexLine([]byte(line), "")
+				m, _, err := ll.LexLine([]byte(line), in.Namespace)
 				if err != nil || m == nil {
 					continue
 				}
 				n++
-				m.Source = gostatsd.Source(d.IP)
+				stampSource(m, d.IP, in.IgnoreHost)
 				id := seriesID(m.Type, m.Name, m.FormatTagsKey())
 				t := sent[id]
 				if t == nil {
@@ -599,7 +640,7 @@ func runSys(in input, rep uint64) hlib.Case {
 	go func() { defer bg.Done(); bh.Run(ctx) }()
 	for p := 0; p < in.Parsers; p++ {
 		hws[p] = &handlerWrap{BackendHandler: bh, dispatched: &dispatched}
-		dp := statsd.NewDatagramParser(inCh, "", false, 0, hws[p], 0, false, logger)
+		dp := statsd.NewDatagramParser(inCh, in.Namespace, in.IgnoreHost, in.EstTags, hws[p], 0, false, logger)
 		bg.Add(1)
 		go func() { defer bg.Done(); dp.Run(ctx) }()
 	}
@@ -825,7 +866,7 @@ func runSys(in input, rep uint64) hlib.Case {
 			trace = "(Some " + traceTerm(in, witness, plog, wlog, ticks) + ")"
 		}
 	}
-	c.Coq = hlib.App("SysCase", hlib.Nat(in.Shards), hlib.List(bl), oracleTable(lines), hlib.List(fl), trace)
+	c.Coq = hlib.App("SysCase", hlib.Nat(in.Shards), hlib.Bytes(in.Namespace), hlib.Bool(in.IgnoreHost), hlib.List(bl), oracleTable(lines), hlib.List(fl), trace)
 	expClass := "mixed"
 	if in.Exp == [4]int64{} {
 		expClass = "persist"
@@ -852,6 +893,9 @@ func runSys(in input, rep uint64) hlib.Case {
 	}
 	if in.CopyMicros > 0 {
 		c.Class += "/slowbackend"
+	}
+	if in.IgnoreHost {
+		c.Class += "/ignorehost"
 	}
 	c.Obs = map[string]interface{}{"lines": len(lines), "accepted": accepted, "series": len(sent), "flushes": atomic.LoadInt64(&flushNo), "histogram_timer_lines": histLines,
 		"flushes_with_data": len(flushesWithData), "maps_captured": len(caps)}
